@@ -350,3 +350,70 @@ Proof.
 Qed.
 
 End FT.
+
+(* ---- an operation that throws by itself (C18's shape), under a fault at allocation number k: if one of its
+   temporaries cannot be allocated, std::bad_alloc is what reaches the caller — with the same guarantees ---- *)
+Section FTT.
+Variable L : nat.
+Hypothesis Lpos : 1 <= L.
+Notation Inv := (Inv L).
+
+Theorem fault_top_throwing st s temps e k :
+  Inv st -> Rel st s -> top_wf s (TThrowing temps e) ->
+  exists stf, run_top L (TThrowing temps e) st = (Throw e, stf) /\ Inv stf /\ Rel stf s /\ nb st <= nb stf /\
+    (nb stf - nb st <= k ->
+       run_top L (TThrowing temps e) (with_fail st (Some k)) = (Throw e, with_fail stf (Some (k - (nb stf - nb st))))) /\
+    (k < nb stf - nb st ->
+       exists st', run_top L (TThrowing temps e) (with_fail st (Some k)) = (Throw BadAlloc, st') /\ Inv st' /\
+         (forall x r, user_slot x -> objs st x = Some r -> objs st' x = Some r /\ contents st' r = contents st r) /\
+         (forall j, j < scratch_slots -> objs st' (scratch_base + j) = None)).
+Proof.
+  intros I R W.
+  destruct (top_throw_ok L Lpos st s temps e I R W) as (stf & Et & If & Rf & _).
+  exists stf. split; [exact Et|]. split; [exact If|]. split; [exact Rf|].
+  destruct W as (SD & Wl). cbn in Wl.
+  assert (WH : wf_history s (build_temps 0 temps)).
+  { apply (wf_build_temps L Lpos). intros j Hj. apply SD. lia. }
+  unfold run_top in *. cbn [expand] in *. rewrite (run_body_eq L) in Et.
+  destruct (fault_history L Lpos (build_temps 0 temps) st s k I R WH) as (st1 & E1 & I1 & R1 & Le1 & K1 & F1).
+  rewrite E1 in Et. unfold unwind in *.
+  destruct (destroy_all_frame L Lpos scratch_slots scratch_base st1 I1) as (st2 & E2 & I2 & D2 & F2 & C2).
+  rewrite E2 in Et. injection Et as <-.
+  destruct (sim_destroy_all L scratch_slots scratch_base st1 tt st2 (nofail_inv L st1 I1) E2) as (NF2 & Le2 & K2).
+  split; [lia|]. split.
+  - intros Hk. rewrite (run_body_eq L), K1 by lia. rewrite K2 by lia. f_equal. f_equal. f_equal. lia.
+  - intros Hk.
+    assert (Hk1 : k < nb st1 - nb st).
+    { (* destroying objects allocates nothing *)
+      assert (Dz : nb st2 = nb st1).
+      { clear -E2 Lpos. revert E2. generalize scratch_base. generalize st1. induction scratch_slots as [|p IH]; intros sa ka E.
+        - cbn in E. injection E as <-. reflexivity.
+        - cbn [destroy_all] in E. destruct (objs sa ka).
+          + unfold mbind in E. destruct (dtor L ka sa) as [[u|x|w|ft] sb] eqn:Ed; try discriminate.
+            rewrite (IH sb (S ka) E). pose proof (dl_dtor L Lpos ka sa u sb Ed). lia.
+          + exact (IH sa (S ka) E). }
+      lia. }
+    destruct (F1 Hk1) as (st'' & E'' & pre & op & post & stp & Hb & Hpre & Ip & Rp & Wp & Ap & Hf).
+    rewrite (run_body_eq L), E''.
+    destruct (fault_step L Lpos stp (sstore_of stp) op Ip (rel_sstore_of stp) Wp Ap) as (st0 & E0 & I0 & R0 & F0).
+    rewrite Hf in E0. injection E0 as <-.
+    destruct (destroy_all_frame L Lpos scratch_slots scratch_base st'' I0) as (st3 & E3 & I3 & D3 & F3 & C3).
+    rewrite E3. cbn [under_construction destroy_if_live].
+    exists st3. split; [reflexivity|]. split; [exact I3|]. split.
+    + intros x r Ux Hx.
+      assert (U : untouched x (build_temps 0 temps)) by (apply (untouched_build_temps L Lpos); exact Ux).
+      assert (Upre : untouched x pre) by (intros o Hin; apply U; rewrite Hb; apply in_or_app; left; exact Hin).
+      assert (Nop : ~ In x (targets op)) by (apply U; rewrite Hb; apply in_or_app; right; left; reflexivity).
+      assert (WHpre : wf_history s pre) by (rewrite Hb in WH; apply wf_history_app in WH; tauto).
+      destruct (history_independent L Lpos pre st s x r I R WHpre Upre Hx) as (stp' & Ep' & _ & _ & Hxp & Cp).
+      rewrite Hpre in Ep'. injection Ep' as <-.
+      assert (Hx0 : objs st'' x = Some r) by (rewrite (F0 x Nop); exact Hxp).
+      assert (C0 : contents st'' r = contents stp r).
+      { specialize (R0 x). rewrite Hx0, (fault_spec_other L stp (sstore_of stp) op x Nop) in R0.
+        unfold sstore_of in R0. rewrite Hxp in R0. exact R0. }
+      assert (Ns : ~ (scratch_base <= x < scratch_base + scratch_slots)) by (unfold user_slot in Ux; lia).
+      split; [rewrite (F3 x Ns); exact Hx0|]. rewrite (C3 x r Ns Hx0), C0. exact Cp.
+    + intros j Hj. apply D3. lia.
+Qed.
+
+End FTT.
